@@ -158,6 +158,10 @@ def main():
         if nh > max(2, agg.runs // 200):
             print(f'HARNESS-ERROR: {nh} of {agg.runs} runs had harness problems')
             exit_code = max(exit_code, 2)
+    if lines:
+        # a violation confirmed by its replay file in a fresh interpreter is a verdict, whatever else went wrong in
+        # other runs of the batch (a broken library often also makes some runs time out)
+        exit_code = 1
     wall = time.time() - t0
     evidence.write(spec, tier, base_seed, agg, wall, n_viol, known_lines)
     for ln in known_lines:
